@@ -10,6 +10,17 @@ use std::sync::OnceLock;
 
 pub struct C03;
 
+/// This check is cheap: the quick tier already runs the full alphabet (what used to be the
+/// thorough tier); `deep` marks the extras that only the thorough tier adds.
+#[allow(dead_code)]
+fn full(_t: Tier) -> bool {
+    true
+}
+#[allow(dead_code)]
+fn deep(t: Tier) -> bool {
+    t == Tier::Thorough
+}
+
 #[derive(Clone, Debug)]
 struct Case {
     label: String,
@@ -20,10 +31,8 @@ struct Case {
 }
 
 fn lengths(tier: Tier) -> Vec<usize> {
-    match tier {
-        Tier::Quick => vec![0, 1, 1024, 1025, 2049, 20000],
-        Tier::Thorough => vec![0, 1, 2, 1023, 1024, 1025, 2047, 2048, 2049, 8192, 20000, 70000],
-    }
+    let _ = tier;
+    vec![0, 1, 2, 1023, 1024, 1025, 2047, 2048, 2049, 8192, 20000, 70000]
 }
 
 fn read_programs(n: usize, tier: Tier) -> Vec<(String, ReadPlan)> {
@@ -40,7 +49,7 @@ fn read_programs(n: usize, tier: Tier) -> Vec<(String, ReadPlan)> {
         ("rn+1".to_string(), sz(vec![n + 1])),
         ("read_to_end".to_string(), ReadPlan::ReadToEnd),
     ];
-    if tier == Tier::Thorough {
+    if full(tier) {
         v.push(("r2".to_string(), sz(vec![2])));
         v.push(("r3".to_string(), sz(vec![3])));
         v.push(("r1024".to_string(), sz(vec![1024])));
@@ -54,7 +63,7 @@ fn read_programs(n: usize, tier: Tier) -> Vec<(String, ReadPlan)> {
 
 fn tails(tier: Tier) -> Vec<(&'static str, Vec<u8>)> {
     let mut v = vec![("none", Vec::new()), ("get", get("/next"))];
-    if tier == Tier::Thorough {
+    if full(tier) {
         v.push(("chunklike", b"5\r\nhello\r\n0\r\n\r\n".to_vec()));
     }
     v
@@ -80,9 +89,9 @@ const CANON: (&str, &str) = ("Transfer-Encoding", "Content-Length");
 fn cases(tier: Tier) -> &'static Vec<Case> {
     static Q: OnceLock<Vec<Case>> = OnceLock::new();
     static T: OnceLock<Vec<Case>> = OnceLock::new();
-    let cell = if tier == Tier::Quick { &Q } else { &T };
+    let cell = if !full(tier) { &Q } else { &T };
     cell.get_or_init(|| {
-        let thorough = tier == Tier::Thorough;
+        let thorough = full(tier);
         let mut v = Vec::new();
         for n in lengths(tier) {
             let body = payload(n);
@@ -285,7 +294,7 @@ impl Check for C03 {
     fn rule(&self, tier: Tier) -> String {
         format!(
             "body length {:?} x framing {{Content-Length; chunked with chunkings one/bytewise/cut1/cutlast/cut1024/8k/thirds; Content-Length together with chunked in both header orders with equal and different values; none; Connection: upgrade}} x application read program {:?} (+2 reads after end-of-stream) x following bytes {:?}; plus chunk-size syntax {:?} and header-name/value letter case for lengths <= 1025 with read sizes 1/7/4096; plus every composition of bodies of 1..{} bytes; {} conversations, each on a real connection; bytes obtained, end-of-stream position and stickiness, body_length() and the fate of the following bytes compared with the reference model; non-trivial = body length > 0",
-            lengths(tier), read_programs(0, tier).iter().map(|x| x.0.clone()).collect::<Vec<_>>(), tails(tier).iter().map(|t| t.0).collect::<Vec<_>>(), ALL_SYNTAX, if tier == Tier::Thorough { 6 } else { 4 }, cases(tier).len()
+            lengths(tier), read_programs(0, tier).iter().map(|x| x.0.clone()).collect::<Vec<_>>(), tails(tier).iter().map(|t| t.0).collect::<Vec<_>>(), ALL_SYNTAX, if full(tier) { 6 } else { 4 }, cases(tier).len()
         )
     }
     fn assumptions(&self) -> Vec<String> {
